@@ -1,5 +1,6 @@
 import FsnVerif.Proofs.KqLemmas
 import FsnVerif.Proofs.KqFullInv
+import FsnVerif.Proofs.KqFullFrame
 /-!
 # C17 — kqueue: watch descriptors are always closed again; only user paths are listed (model side)
 
@@ -198,6 +199,50 @@ theorem full_remove_releases {s : KS} (h : Reachable s) (hc : s.closed = false) 
   simp only [reduceCtorEq, or_false] at this
   obtain ⟨e', he'⟩ := (alHas_iff _ _).mp this
   exact (h2 _ _ he').1 rfl
+
+/-- the clean spellings of everything the user ever asked to add -/
+def asked : List Op → List Path
+  | [] => []
+  | .add p :: rest => clean p :: asked rest
+  | _ :: rest => asked rest
+
+/-- reachability, remembering the operations (latest first) -/
+inductive ReachH : List Op → KS → Prop
+  | init : ReachH [] {}
+  | step (ops : List Op) (s : KS) (op : Op) (tape : List Ans) : ReachH ops s → ReachH (op :: ops) (run op { s := s, tape := tape }).s
+
+/-- **WatchList shows only paths the user added** — never one of the per-entry watches the backend
+creates internally, whatever the directory contents and the notifications were: in every reachable
+state the user set holds nothing but cleaned `Add` arguments (`WatchList` is that set, or nothing once closed) -/
+theorem full_watchlist_only_user_paths {ops : List Op} {s : KS} (h : ReachH ops s) :
+    ∀ p, p ∈ (watchList { s := s }).1 → p ∈ asked ops := by
+  have key : ∀ p, p ∈ s.byUser → p ∈ asked ops := by
+    induction h with
+    | init => intro p hp; cases hp
+    | step ops s op tape _ ih =>
+      intro p hp
+      cases op with
+      | add q =>
+        rcases add_user q { s := s, tape := tape } p hp with h1 | h1
+        · exact List.mem_cons_of_mem _ (ih p h1)
+        · rw [h1]; exact List.mem_cons_self
+      | remove q => exact ih p (rel_remove frame_noNewUser q true { s := s, tape := tape } p hp)
+      | events => exact ih p (rel_reader frame_noNewUser noNewUser_sendEvent noNewUser_sendError 64 { s := s, tape := tape } p hp)
+      | close => exact ih p (rel_close frame_noNewUser { s := s, tape := tape } p hp)
+  intro p hp
+  apply key
+  simp only [watchList, KqF.get, bind_apply, pure_apply] at hp
+  by_cases hc : s.closed = true
+  · rw [if_pos hc] at hp; cases hp
+  · rw [if_neg hc] at hp; exact hp
+
+/-- `Add`, `Remove` and `Close` deliver nothing on Events or Errors, whatever they find on disk: what
+exists when a watch is added is never reported (C18's first clause; changes are reported by the reader) -/
+theorem full_api_calls_silent (w : W) :
+    (∀ p, (run (.add p) w).events = w.events ∧ (run (.add p) w).errors = w.errors) ∧
+    (∀ p, (run (.remove p) w).events = w.events ∧ (run (.remove p) w).errors = w.errors) ∧
+    ((run .close w).events = w.events ∧ (run .close w).errors = w.errors) :=
+  ⟨fun p => add_silent p w, fun p => rel_remove frame_silent p true w, rel_close frame_silent w⟩
 
 /-- non-vacuity: a directory with one file is added (two descriptors), then the Watcher is closed -/
 def tapeAdd : List Ans :=
